@@ -18,7 +18,7 @@ var hC02 = hx.New("C02", "rapid-generated single-goroutine histories with sequen
 var c02Cfg = genCfg{
 	windowed: true,
 	timeouts: []time.Duration{-time.Second, 0, 200 * time.Microsecond, time.Hour, time.Hour, time.Hour, time.Duration(math.MaxInt64), time.Duration(math.MinInt64)},
-	maxMax:   6, maxOps: 60, sleeps: []int{400}, raw: true, nilPush: true, endClose: true, gapBias: true,
+	maxMax:   6, maxOps: 60, sleeps: []int{400}, raw: true, nilPush: true, endClose: true, gapBias: true, midClose: true,
 }
 
 type delivery struct {
